@@ -77,8 +77,18 @@ def load(gdir):
         sp = specparse.parse(p)
         if sp.container not in infos:
             raise engine.Undecided('contract anchor missing: container %s is not in the extracted set' % sp.container)
-        for fn in sp.order:
+        sp.dropped = []
+        for fn in list(sp.order):
             if fn not in [f['cname'] for f in infos[sp.container]['functions']]:
+                if '__do_' in fn and fn.split('__', 1)[1].startswith('do_'):
+                    # a private helper (every do_* member is private) was folded into its callers or renamed: its contract is a
+                    # lemma, not part of any property (DESIGN.md section 16); the public methods' contracts still decide
+                    # every property, with whatever now implements them inlined.  The helper's units are dropped with a NOTE,
+                    # and so are the container's route U units (their harness file names the helper): bounded results stand.
+                    sp.dropped.append(fn)
+                    sp.order.remove(fn)
+                    sp.funcs.pop(fn, None)
+                    continue
                 raise engine.Undecided('contract anchor missing: %s (renamed or removed); the contract cannot be checked' % fn)
         specs[sp.container] = sp
     return gen, infos, specs
@@ -179,7 +189,7 @@ def units_for(prop, tier, gdir):
     # ones that finish in about two minutes, the thorough tier all of them
     import uroute
     for cn in notes['containers']:
-        if cn not in uroute.REGISTERED:
+        if cn not in uroute.REGISTERED or specs[cn].dropped:
             continue
         for u in uroute.units_for_container(cn, gen):
             if tier == 'thorough' or ((u.short in uroute.QUICK or cn in uroute.QUICK_ALL) and cn not in uroute.THOROUGH_ONLY):
@@ -187,6 +197,7 @@ def units_for(prop, tier, gdir):
                 if tier == 'quick':
                     u.timeout = 500  # a quick check has 15 minutes; a route U unit that does not finish leaves the bounded result standing
                 units.append(u)
+    notes['dropped_helpers'] = sorted(fn for cn in notes['containers'] for fn in specs[cn].dropped)
     units = list({u.id: u for u in units}.values())  # identical units (e.g. constructors) are planned once
     units.sort(key=lambda u: 0 if isinstance(u, uroute.UUnit) else 1)  # the z3 units start first (stable sort)
     return units, notes
